@@ -236,8 +236,11 @@ impl TypeChecker {
             }
         }
 
-        // Check required methods (those without body)
-        for (method_name, method_info) in &trait_info.methods {
+        // Check required methods (those without body), sorted by name: `methods` is a HashMap and the diagnostics
+        // must come out in the same order on every run.
+        let mut trait_methods: Vec<_> = trait_info.methods.iter().collect();
+        trait_methods.sort_by(|a, b| a.0.cmp(b.0));
+        for (method_name, method_info) in trait_methods {
             if !method_info.has_body {
                 // Prefer symbol-table method info so we can validate signatures.
                 let model_info = self
@@ -381,8 +384,11 @@ impl TypeChecker {
             }
         }
 
-        // Check required methods (those without body)
-        for (method_name, method_info) in &trait_info.methods {
+        // Check required methods (those without body), sorted by name: `methods` is a HashMap and the diagnostics
+        // must come out in the same order on every run.
+        let mut trait_methods: Vec<_> = trait_info.methods.iter().collect();
+        trait_methods.sort_by(|a, b| a.0.cmp(b.0));
+        for (method_name, method_info) in trait_methods {
             if !method_info.has_body {
                 match class_info.as_ref().and_then(|ci| ci.methods.get(method_name)) {
                     None => self
